@@ -7,6 +7,10 @@ NOTE = ("Trusted: Coq 8.16.1 kernel and vm_compute (no native_compute); no axiom
         "context'); the go2v translator; the Go harness/oracle; Go toolchain and third-party libraries. See DESIGN.md section 7.")
 SOURCE_COMMITS = ["05f9ccb verif hooks: export template rendering behind the 'verif' build tag"]
 CLAIMED = {
+ "C12": dict(ref="5 C12", technique="Rocq/Coq proof by symbolic execution of the chain go2v extracts from attribute_query.go + in-Coq correspondence",
+   text="C12_answered: for all queries, metadata, user records and key states, an answer with user data implies registered issuer, verified signature value, certificate match when required, "
+        "Destination absent or the advertised attribute service, successful user lookup and signing, and the answer is exactly (query ID, requester as audience, user's NameID, filtered attributes); "
+        "C12_filter characterises the filter as a set. Real handler vs model on 22 mutation classes and an independent set-based oracle."),
  "C17": dict(ref="5 C17", technique="Rocq/Coq proof over the template literals go2v extracts + byte-for-byte in-Coq correspondence of rendered pages",
    text="C17_extract_* / _values_* / _no_breakout_* / _no_script_url hold for ALL substituted byte strings; the page model is derived from the template constants regenerated from template.go "
         "(shape lemmas by vm_compute). The model page is compared byte for byte with the page produced by the provider's own template objects for every byte value in every position, hostile "
